@@ -15,7 +15,7 @@ let table : (string * ((Model.z list -> Model.z list) * (Model.z list -> Model.z
   ("C05", (Model.run_svc, Model.chk_c05));
   ("C09", (Model.run_svc, Model.chk_c09));
   ("C02", (Model.run_ipam, Model.chk_c02));
-  ("C03", (Model.run_ipam, Model.chk_c03));
+  ("C03", (Model.run_c03, Model.chk_c03_all));
   ("C08", (Model.run_ipam, Model.chk_c08));
   ("C10", (Model.run_pe, Model.chk_c10));
   ("C11", (Model.run_pe, Model.chk_c11));
@@ -31,7 +31,7 @@ let why : (string * (Model.z list -> Model.z list -> Model.z)) list = [
   ("C05", Model.why_svc (Model.Zpos (Model.XI (Model.XO Model.XH))));
   ("C09", Model.why_svc (Model.Zpos (Model.XI (Model.XO (Model.XO Model.XH)))));
   ("C02", Model.why_ipam (Model.Zpos (Model.XO Model.XH)));
-  ("C03", Model.why_ipam (Model.Zpos (Model.XI Model.XH)));
+  ("C03", Model.why_c03);
   ("C08", Model.why_ipam (Model.Zpos (Model.XO (Model.XO (Model.XO Model.XH)))));
   ("C10", Model.why_pe (Model.Zpos (Model.XO (Model.XI (Model.XO Model.XH)))));
   ("C11", Model.why_pe (Model.Zpos (Model.XI (Model.XI (Model.XO Model.XH)))));
